@@ -173,8 +173,13 @@ def _eval_derived(case):
             if [g for g, _ in o['layers']] != want:
                 fails.append({'what': 'derived-gates-are-not-the-filter', 'expected': want, 'observed': [g for g, _ in o['layers']]})
             fails += judge_layers(L, o['layers'], case)
-            # index map: bijective on the description's own qubit ids; default map = position in the involved list
+            # the description's qubit ids are exactly its data and ancilla qubits (each once): the identifiers the index map
+            # has to cover (seeded change C17-m3 dropped ancillas from `qubit_ids`, and with them from the channel map)
+            # (judged for involved lists without repetition: the property's quantifier; a repeated qubit is a malformed input)
             nodup = len(set(inv)) == len(inv)
+            if nodup and sorted(o['ids']) != sorted(set(o['data']) | set(o['anc'])):
+                fails.append({'what': 'qubit-ids-are-not-data-plus-ancilla', 'ids': o['ids'], 'data': o['data'], 'anc': o['anc']})
+            # index map: bijective on the description's own qubit ids; default map = position in the involved list
             if nodup and o['cmap'] != 'keyerror':
                 pairs = [x.split(':') for x in o['cmap'].split(',')] if o['cmap'] != '-' else []
                 idx_of = {L.qubits[int(qt)]: int(i) for i, qt in pairs}
